@@ -4,6 +4,7 @@ go 1.22.2
 
 require (
 	github.com/renbou/grpcbridge v0.0.0
+	github.com/gorilla/websocket v1.5.1
 	google.golang.org/grpc v1.63.2
 	google.golang.org/protobuf v1.33.0
 )
